@@ -199,6 +199,20 @@ structure Watch where
   pos      : Nat                   -- next batch of the subject's topic buffer
   st       : WState
   released : Bool                  -- `freeBuf` ran (sync.Once)
+  -- history variables (never read by the operations; used to state the theorems)
+  gD         : Nat := 0            -- number of dispatched events when the snapshot it got was taken
+  gP         : Nat := 0            -- number of committed events when the snapshot it got was taken
+  gSq        : Query := default    -- the query that snapshot was listed with
+  gDelivered : List WEv := []      -- everything `Next` has returned so far
+deriving DecidableEq, Repr
+
+/-- a cached snapshot: its batch and the buffer position it was spliced at -/
+structure Cache where
+  batch : List Ev
+  pos   : Nat
+  gD    : Nat := 0                 -- history variables, see `Watch`
+  gP    : Nat := 0
+  gSq   : Query := default
 deriving DecidableEq, Repr
 
 /-- one (topic, subject) entry of `topicBuffers` + `snapCache` -/
@@ -206,7 +220,7 @@ structure Sub where
   key   : Bytes
   buf   : List (List Ev)           -- batches appended since the buffer was created
   refs  : Nat
-  cache : Option (List Ev × Nat)   -- cached snapshot batch and the buffer position it was spliced at
+  cache : Option Cache
 deriving DecidableEq, Repr
 
 structure World where
@@ -294,11 +308,13 @@ def World.watchOpen (w : World) (q : Query) : World × Nat :=
   let sub := match findSub key w.subs with
     | some s => s
     | none => { key := key, buf := [], refs := 0, cache := none }
-  let (batch, pos) := match sub.cache with
+  let c : Cache := match sub.cache with
     | some c => c
-    | none => (snapshotBatch w.db sq, splicePos sub.buf w.db.evIdx)
-  let sub' := { sub with refs := sub.refs + 1, cache := some (batch, pos) }
-  let watch : Watch := { q := q, subj := key, inbox := [], snap := some batch, pos := pos, st := .opened, released := false }
+    | none => { batch := snapshotBatch w.db sq, pos := splicePos sub.buf w.db.evIdx,
+                gD := w.log.length - w.queue.length, gP := w.log.length, gSq := sq }
+  let sub' := { sub with refs := sub.refs + 1, cache := some c }
+  let watch : Watch := { q := q, subj := key, inbox := [], snap := some c.batch, pos := c.pos, st := .opened,
+                         released := false, gD := c.gD, gP := c.gP, gSq := c.gSq }
   ({ w with subs := setSub sub' w.subs, watches := w.watches ++ [watch] }, w.watches.length)
 
 /-- the two subjects `publishEvent` addresses an event to -/
@@ -310,9 +326,10 @@ def evSubjects (e : Ev) : List Bytes :=
 
 /-- `EventPublisher.publishEvent` for one item of publishCh: events are grouped by subject string and
     appended as one batch to each subject buffer that exists. -/
+def hitsOf (key : Bytes) (e : Ev) : List Ev := ((evSubjects e).filter (· = key)).map fun _ => e
+
 def dispatch (e : Ev) (s : Sub) : Sub :=
-  let hits := (evSubjects e).filter (· = s.key)
-  if hits.isEmpty then s else { s with buf := s.buf ++ [hits.map fun _ => e] }
+  if (hitsOf s.key e).isEmpty then s else { s with buf := s.buf ++ [hitsOf s.key e] }
 
 /-- one iteration of `EventPublisher.Run` -/
 def World.pump (w : World) : World × Bool :=
@@ -358,7 +375,7 @@ deriving DecidableEq, Repr
 
 def Watch.next (w : Watch) (buf : List (List Ev)) : Watch × NextRes :=
   match takeFirst w.q w.inbox with
-  | some (e, rest) => ({ w with inbox := rest }, .ev e.ev)
+  | some (e, rest) => ({ w with inbox := rest, gDelivered := w.gDelivered ++ [e.ev] }, .ev e.ev)
   | none =>
     let w := { w with inbox := [] }
     match w.st with
@@ -369,7 +386,7 @@ def Watch.next (w : Watch) (buf : List (List Ev)) : Watch × NextRes :=
       let fromSnap := match w.snap with | some _ => 1 | none => 0
       match nextFromBatches w.q pending 0 with
       | some (e, rest, n) =>
-        ({ w with inbox := rest, snap := none, pos := w.pos + (n - fromSnap) }, .ev e.ev)
+        ({ w with inbox := rest, snap := none, pos := w.pos + (n - fromSnap), gDelivered := w.gDelivered ++ [e.ev] }, .ev e.ev)
       | none =>
         ({ w with snap := none, pos := w.pos + (pending.length - fromSnap) }, .block)
 
@@ -379,14 +396,17 @@ def setAt {α : Type} (l : List α) (i : Nat) (a : α) : List α :=
   | _ :: xs, 0 => a :: xs
   | x :: xs, i + 1 => x :: setAt xs i a
 
+/-- the topic buffer of the watch's subject -/
+def World.bufOf (w : World) (wt : Watch) : List (List Ev) :=
+  match findSub wt.subj w.subs with
+  | some s => s.buf
+  | none => []
+
 def World.watchNext (w : World) (h : Nat) : World × Option NextRes :=
   match w.watches[h]? with
   | none => (w, none)
   | some wt =>
-    let buf := match findSub wt.subj w.subs with
-      | some s => s.buf
-      | none => []
-    let (wt', r) := wt.next buf
+    let (wt', r) := wt.next (w.bufOf wt)
     ({ w with watches := setAt w.watches h wt' }, some r)
 
 /-- `Watch.Close` → `Subscription.Unsubscribe` + `freeBuf` (once) -/
@@ -412,5 +432,55 @@ def World.restore (w : World) (rs : List Res) : World :=
     db := { rows := restoreRows rs, evIdx := 2 },
     subs := w.subs.map (fun s => { s with cache := none }),
     watches := w.watches.map (fun wt => if wt.st = .opened then { wt with st := .forceClosed } else wt) }
+
+/-! ### one operation of the world -/
+
+inductive WOp where
+  | bwrite (res : Res)                    -- inmem.Backend.WriteCAS
+  | swrite (res : Res) (vsn : String)     -- inmem.Store.WriteCAS
+  | delete (id : RID) (vsn : String)      -- DeleteCAS (Backend = Store)
+  | rwrite (idx : Nat) (res : Res)        -- raft.Backend.Apply, write entry at Raft index `idx`
+  | rdelete (id : RID) (vsn : String)     -- raft.Backend.Apply, delete entry
+  | read (id : RID)
+  | list (q : Query)
+  | listOwner (id : RID)
+  | wopen (q : Query)
+  | wnext (h : Nat)
+  | wclose (h : Nat)
+  | pump
+  | snap
+  | restore (rs : List Res)
+deriving DecidableEq, Repr
+
+inductive WOut where
+  | wres (r : WRes) (stored : Res)
+  | dres (ok : Bool)
+  | rres (r : ReadRes)
+  | rows (l : List Res)
+  | handle (h : Nat)
+  | next (r : Option NextRes)
+  | flag (ok : Bool)
+  | unit
+deriving DecidableEq, Repr
+
+def World.step (w : World) : WOp → World × WOut
+  | .bwrite res => let (w', r, stored) := w.backendWrite res; (w', .wres r stored)
+  | .swrite res vsn => let (w', r) := w.storeWrite res vsn; (w', .wres r res)
+  | .delete id vsn => let (w', ok) := w.delete id vsn; (w', .dres ok)
+  | .rwrite idx res => let (w', r, stored) := w.raftWrite idx res; (w', .wres r stored)
+  | .rdelete id vsn => let (w', ok) := w.raftDelete id vsn; (w', .dres ok)
+  | .read id => (w, .rres (w.db.read id))
+  | .list q => (w, .rows (list w.db.rows q))
+  | .listOwner id => (w, .rows (listByOwner w.db.rows id))
+  | .wopen q => let (w', h) := w.watchOpen q; (w', .handle h)
+  | .wnext h => let (w', r) := w.watchNext h; (w', .next r)
+  | .wclose h => let (w', ok) := w.watchClose h; (w', .flag ok)
+  | .pump => let (w', ok) := w.pump; (w', .flag ok)
+  | .snap => (w, .rows w.db.rows)
+  | .restore rs => (w.restore rs, .unit)
+
+def World.run (w : World) : List WOp → World
+  | [] => w
+  | op :: ops => (w.step op).1.run ops
 
 end CV.Res
